@@ -23,7 +23,8 @@ import lf_common as L
 THEOREMS = ["C14_persistent_map", "C14_get", "C14_update", "C14_add", "C14_add_fault", "C14_add_fault_transparent",
             "C14_add_fault_example", "C14_discard", "C14_identity_seq",
             "C14_identity_threads", "C14_pinned_get_refuted", "C14_split_add_refuted", "C14_example",
-            "C14_threads_example", "C14_observer_during_write", "C14_observer_example"]
+            "C14_threads_example", "C14_observer_during_write", "C14_observer_example",
+            "C14_concurrent_commits", "C14_concurrent_commits_example"]
 
 NKEYS = 4
 CALL_LIMIT = 5.0     # seconds one step (an SDK call plus the probes after it) may take before it counts as a hang
@@ -984,6 +985,287 @@ def run_writer(idbase, dshape, pre, wop):
         w.close()
 
 
+# ---------------------------------------------------------------- two writers of one document, every interleaving
+
+CONC_SCENARIOS = [
+    ("two threads commit the same live object", [("New", 1, 2), ("Add", 0, 0), ("SetVal", 0, 4)], (0, 0)),
+    ("two replicas of one id (one per instance) with different contents committed concurrently",
+     [("New", 1, 2), ("Add", 0, 0), ("Get", 1, 1), ("SetVal", 0, 4), ("SetVal", 1, 5)], (0, 1)),
+    ("commits of two different ids", [("New", 1, 2), ("Add", 0, 0), ("New", 2, 1), ("Add", 1, 1), ("SetVal", 0, 4),
+                                      ("SetVal", 1, 3)], (0, 1)),
+]
+# the pause points of one commit() (effects of model/CrashConc.v: open of the temporary file; write+close; os.replace)
+CONC_PAUSES = ["start", "open", "opened", "replace"]
+
+
+def conc_schedules():
+    n = len(CONC_PAUSES)
+    for pos in itertools.combinations(range(2 * n), n):
+        yield [0 if t in pos else 1 for t in range(2 * n)]
+
+
+def run_conc_writers(idbase, dshape, pre, oids, sched):
+    """Two real threads call commit() on the live objects `oids` (bound to the same or to different documents) and are
+    parked before opening the temporary file, after opening it and before os.replace; `sched` interleaves them.
+    Oracle (persistent map, a commit takes effect at its os.replace): no commit raises; after every step a reader
+    through a freshly opened instance finds every document holding exactly what was committed last (or the state
+    before, if no commit of it has got that far); at the end the directory holds the documents and nothing else.
+    Returns (labels per thread, fail)."""
+    import builtins
+    w = World(idbase, dshape)
+    S = L.Sched(timeout=2 * CALL_LIMIT)
+    saved = (builtins.open, os.replace)
+    try:
+        for op in pre:
+            w.do(tuple(op))
+        objs = [w.live[x] for x in oids]
+        content = [L.canon(o) for o in objs]
+        keys = [w.bound[x] for x in oids]
+        cur = dict(w.M)
+        root = os.path.realpath(w.dir)
+
+        def inside(path):
+            try:
+                return os.path.realpath(os.path.dirname(os.fspath(path))) == root
+            except TypeError:
+                return False
+
+        def p_open(file, mode="r", *a, **k):
+            if isinstance(file, (str, bytes, os.PathLike)) and any(c in mode for c in "wax+") and inside(file):
+                S.point("open")
+                f = saved[0](file, mode, *a, **k)
+                S.point("opened")
+                return f
+            return saved[0](file, mode, *a, **k)
+
+        def p_replace(a, b, **k):
+            if inside(b):
+                S.point("replace")
+            return saved[1](a, b, **k)
+        builtins.open, os.replace = p_open, p_replace
+        res = {}
+
+        def worker(tid):
+            S.register(tid)
+            S.point("start")
+            try:
+                objs[tid].commit()
+                res[tid] = None
+            except BaseException as e:   # noqa
+                res[tid] = "{}: {}".format(type(e).__name__, e)
+            finally:
+                S.finish()
+        ts = [threading.Thread(target=worker, args=(t,), daemon=True) for t in (0, 1)]
+        for t in ts:
+            t.start()
+        fail = None
+        labels = {0: [], 1: []}
+
+        def look(after):
+            nonlocal fail
+            fresh = w.lf.LocalFileObjectStore(w.dir)
+            for k in sorted(set(keys)):
+                idn = w.ids[k]
+                try:
+                    got = L.canon(fresh.get_identifiable(idn))
+                except Exception as e:
+                    fail = fail or ("C14:writers:commit/commit:read-raises",
+                                    "after {} a reader through a fresh instance got {}: {} for a stored id".format(
+                                        after, type(e).__name__, str(e)[:200]))
+                    continue
+                if got != cur[idn]:
+                    fail = fail or ("C14:writers:commit/commit:not-last-committed",
+                                    "after {} a reader finds content {} in the document but content {} was committed "
+                                    "last".format(after, w.rev.get(got, (None, "?"))[1], w.rev.get(cur[idn], (None, "?"))[1]))
+        for tid in list(sched) + [0, 1] * len(CONC_PAUSES):
+            lab = S.step(tid)
+            if lab is None:
+                continue
+            labels[tid].append(lab)
+            if lab == "replace" and res.get(tid, None) is None:
+                cur[w.ids[keys[tid]]] = content[tid]
+            look("thread {} passed {!r}".format(tid, lab))
+        for t in ts:
+            t.join(20)
+        builtins.open, os.replace = saved
+        for tid in (0, 1):
+            if res.get(tid) is not None:
+                fail = ("C14:writers:commit/commit:valid-commit-raised",
+                        "commit() of a live object bound to a stored document raised {} while another thread committed "
+                        "{}".format(res[tid], "the same document" if keys[0] == keys[1] else "another document"))
+        w.M.update(cur)
+        try:
+            w.probe()
+            w.membership()
+            for x, k in zip(oids, keys):
+                w.do(("Get", 0 if w.rep.get((0, k)) == x else 1, k))
+        except Exception as e:
+            fail = fail or ("C14:writers:commit/commit:store-unreadable-afterwards",
+                            "after both commits returned, reading the directory / the store raised {}: {}".format(
+                                type(e).__name__, str(e)[:200]))
+        if w.fail and fail is None:
+            fail = w.fail
+        return [labels[0], labels[1]], fail
+    finally:
+        builtins.open, os.replace = saved
+        w.close()
+
+
+# ---------------------------------------------------------------- the client drops its reference while a thread retrieves
+
+GC_SCENARIOS = [
+    ("live replica cached by add", [("New", 1, 2), ("Add", 0, 0)], 0),
+    ("stale live replica (document changed through the other instance)",
+     [("New", 1, 2), ("Add", 0, 0), ("Get", 1, 1), ("SetVal", 1, 5), ("Commit", 1)], 0),
+    ("live replica handed out by an earlier get", [("New", 1, 2), ("Add", 1, 0), ("Get", 0, 1)], 1),
+    ("plain object without children", [("New", 2, 1), ("Add", 0, 0)], 0),
+]
+GC_PROGS = ["get", "iter"]
+# what a retrieval does with the weak cache inside its critical section: one look-up that yields a strong reference
+# (or nothing), then at most one insert (model/LocalFile.v: the hit/miss step of TGet)
+GC_CACHE_OPS = [["get"], ["get", "set"]]
+
+
+def run_gc_race(idbase, dshape, pre, victim, prog, at):
+    """A real thread retrieves (get_identifiable / iteration) through instance 0 the id of the live object `victim`
+    and is parked at start, after json.load, before the lock, AFTER EVERY ACCESS TO THE WEAK CACHE and after the lock;
+    when it has passed `at` of these points the client (this thread) drops its last reference to `victim` and
+    collects.  Oracle: the retrieval of a stored id does not raise and returns the stored content, a later get
+    returns that very object.  Returns (labels, cache accesses, fail)."""
+    import weakref
+    w = World(idbase, dshape)
+    S = L.Sched(timeout=2 * CALL_LIMIT)
+    real_load = json.load
+    try:
+        for op in pre:
+            w.do(tuple(op))
+        store = w.stores[0]
+        key = w.bound[victim]
+        idn = w.ids[key]
+        cache_ops = []
+
+        class PausingCache(weakref.WeakValueDictionary):
+            def get(self, k, default=None):
+                r = super().get(k, default)
+                cache_ops.append("get")
+                S.point("cache:get")
+                return r
+
+            def __contains__(self, k):
+                r = super().__contains__(k)
+                cache_ops.append("contains")
+                S.point("cache:contains")
+                return r
+
+            def __getitem__(self, k):
+                r = super().__getitem__(k)
+                cache_ops.append("getitem")
+                S.point("cache:getitem")
+                return r
+
+            def __setitem__(self, k, v):
+                super().__setitem__(k, v)
+                cache_ops.append("set")
+                S.point("cache:set")
+        pc = PausingCache()
+        for k0, v0 in list(store._object_cache.items()):
+            pc[k0] = v0
+        k0 = v0 = None
+        del cache_ops[:]
+        store._object_cache = pc
+
+        class LockProxy:
+            def __init__(self):
+                self.l = threading.Lock()
+
+            def __enter__(self):
+                S.point("lock")
+                self.l.acquire()
+
+            def __exit__(self, *a):
+                self.l.release()
+                S.point("unlocked")
+                return False
+        store._object_cache_lock = LockProxy()
+
+        def load(*a, **k):
+            r = real_load(*a, **k)
+            S.point("loaded")
+            return r
+        json.load = load
+        res = {}
+
+        def worker():
+            S.register("r")
+            S.point("start")
+            try:
+                if prog == "get":
+                    res["obj"] = store.get_identifiable(idn)
+                else:
+                    res["objs"] = list(store)
+            except BaseException as e:   # noqa
+                res["exc"] = e
+            finally:
+                S.finish()
+        t = threading.Thread(target=worker, daemon=True)
+        t.start()
+        labels = []
+        dropped = False
+        try:
+            while True:
+                if len(labels) == at and not dropped:
+                    w.do(("Drop", victim))
+                    dropped = True
+                lab = S.step("r")
+                if lab is None:
+                    break
+                labels.append(lab)
+        finally:
+            json.load = real_load
+        t.join(20)
+        thread_cache_ops = list(cache_ops)
+        store._object_cache_lock = threading.Lock()
+        fail = None
+        sig = "C14:gc-race:{}:".format(prog)
+        if "exc" in res:
+            e = res["exc"]
+            fail = (sig + ("stored-id-keyerror" if isinstance(e, KeyError) else "exception-" + type(e).__name__),
+                    "{} of a stored id raised {}: {} - the client dropped its last reference to the live replica (and the "
+                    "collector ran) while the retrieving thread was parked after {!r}".format(
+                        "get_identifiable" if prog == "get" else "iteration", type(e).__name__, str(e)[:200],
+                        labels[at - 1] if 0 < at <= len(labels) else "its start"))
+        else:
+            got = [res["obj"]] if prog == "get" else [o for o in res["objs"] if o.id == idn]
+            if len(got) != 1 or L.canon(got[0]) != w.M[idn]:
+                fail = (sig + "stale-or-wrong-content", "the retrieval did not yield the stored content")
+            elif prog == "iter" and {o.id: L.canon(o) for o in res["objs"]} != w.M:
+                fail = (sig + "iteration-wrong", "iteration did not yield exactly the stored objects")
+            else:
+                if not dropped:
+                    w.do(("Drop", victim))
+                    dropped = True
+                o = w.oid_of(got[0])
+                if o is None:
+                    o = w.next
+                    w.next += 1
+                    w.live[o] = got[0]
+                w.rep[(0, key)] = o
+                w.bound[o] = key
+                res.clear()
+                got = None
+                w.do(("Get", 0, key))
+        if not dropped:
+            w.do(("Drop", victim))
+        w.probe()
+        w.membership()
+        if w.fail and fail is None:
+            fail = w.fail
+        return labels, thread_cache_ops, fail
+    finally:
+        json.load = real_load
+        w.close()
+
+
 # ---------------------------------------------------------------- directed histories
 
 def directed_histories():
@@ -1166,6 +1448,67 @@ def run(chk):
                 chk.fail(fail[0], fail[1], {"writer_scenario": wi, "what": desc, "pre": pre, "writer_op": wop, "dshape": ds,
                                             "how": "tools/c14.py run_writer(writer_scenario, dshape, pre, writer_op)"})
     chk.cov["writer_pause_points_observed"] = nobs
+    # ---- two writers (commit/commit) under every interleaving of their pause points
+    nconc = 0
+    tie_reported = set()
+    for si, (desc, pre, oids) in enumerate(CONC_SCENARIOS):
+        for n, sched in enumerate(conc_schedules()):
+            if chk.tier != "thorough" and n % 3 != si % 3:
+                continue
+            ds = (n + si) % len(DIR_SHAPES)
+            try:
+                with L.deadline(8 * CALL_LIMIT):
+                    labels, fail = run_conc_writers(si, ds, pre, oids, sched)
+            except (L.Hang, TimeoutError) as e:
+                labels = None
+                fail = ("C14:writers:commit/commit:does-not-return", "a committing thread did not finish: {!r}".format(e))
+            nconc += 1
+            chk.seen(("writers", si, tuple(sched), ds), nontrivial=True)
+            chk.count("concurrent-writers=commit/commit:{}".format("same-id" if si < 2 else "two-ids"))
+            chk.traces += 1
+            if labels is not None and labels != [CONC_PAUSES, CONC_PAUSES] and "conc" not in tie_reported:
+                tie_reported.add("conc")
+                chk.tie_broken("writer-pause-points", {"scenario": desc, "expected": [CONC_PAUSES, CONC_PAUSES],
+                                                       "observed": labels,
+                                                       "note": "commit() no longer passes the effects of model/CrashConc.v "
+                                                               "(open of the temporary file, write+close, os.replace)"})
+            if fail:
+                chk.fail(fail[0], fail[1], {"conc_scenario": si, "what": desc, "pre": pre, "oids": list(oids), "schedule": sched,
+                                            "dshape": ds,
+                                            "how": "tools/c14.py run_conc_writers(conc_scenario, dshape, pre, oids, schedule)"})
+    chk.cov["concurrent_writer_interleavings"] = nconc
+    # ---- the client drops its last reference (and the collector runs) at every yield point of a retrieval,
+    #      every access to the weak cache being a yield point
+    ngc = 0
+    for si, (desc, pre, victim) in enumerate(GC_SCENARIOS):
+        for prog in GC_PROGS:
+            for at in range(12):
+                ds = (si + at) % len(DIR_SHAPES)
+                try:
+                    with L.deadline(8 * CALL_LIMIT):
+                        labels, cops, fail = run_gc_race(si, ds, pre, victim, prog, at)
+                except (L.Hang, TimeoutError) as e:
+                    labels, cops = [], None
+                    fail = ("C14:gc-race:{}:does-not-return".format(prog), "the retrieving thread did not finish: {!r}".format(e))
+                ngc += 1
+                chk.seen(("gc-race", si, prog, at, ds), nontrivial=True)
+                chk.count("gc-race={}".format(prog))
+                chk.traces += 1
+                if cops is not None and cops not in GC_CACHE_OPS and "gc" not in tie_reported:
+                    tie_reported.add("gc")
+                    chk.tie_broken("cache-access-pattern", {"scenario": desc, "program": prog, "expected one of": GC_CACHE_OPS,
+                                                            "observed": cops,
+                                                            "note": "a retrieval's critical section is one look-up in the weak "
+                                                                    "cache that yields a strong reference, then at most one "
+                                                                    "insert (model/LocalFile.v, hit/miss step of TGet)"})
+                if fail:
+                    chk.fail(fail[0], fail[1], {"gc_scenario": si, "what": desc, "pre": pre, "victim": victim, "prog": prog,
+                                                "drop_after_points": at, "dshape": ds,
+                                                "how": "tools/c14.py run_gc_race(gc_scenario, dshape, pre, victim, prog, "
+                                                       "drop_after_points)"})
+                if at > len(labels):
+                    break
+    chk.cov["gc_race_positions"] = ngc
     chk.trusted = [
         "Coq 8.16.1 kernel (coqc; vm_compute for the refutations, the example and the correspondence)",
         "hand-written model coq/theories/model/LocalFile.v, tied to local_file.py / base.py update()/commit() by this "
@@ -1176,8 +1519,10 @@ def run(chk):
         "threads: only interleavings at the modelled yield points (json.load, lock acquire/release, and for the "
         "refuted earlier code os.path.exists/os.replace); a concurrent reader is placed only at the pause points of a "
         "write (before exists/encode/open, after open, before/after replace) whose directory states are those of "
-        "model/Crash.v; CPython's scheduler and GC timing are not modelled (gc.collect() is called after steps that "
-        "drop objects)",
+        "model/Crash.v; two committing threads are interleaved at the effects of model/CrashConc.v; CPython's "
+        "scheduler and GC timing are not modelled (gc.collect() is called after steps that drop objects, and - while a "
+        "retrieving thread is parked at a yield point, every weak-cache access being one - by the client that drops "
+        "its reference)",
         "tools/c14.py, tools/lf_common.py, tools/common.py",
     ]
     chk.assumptions = ["sha256 collision freedom", "identifiers of stored objects are not reassigned",
@@ -1192,7 +1537,11 @@ def run(chk):
                            "identifiers drawn from 16 shapes (path separators, '..', non-ASCII, astral, line breaks, 2000 "
                            "chars), 4 payload classes x 6 contents, generated against the live state so that most steps "
                            "are applicable; threads: every interleaving of the yield points of get/get, get/add, add/add "
-                           "in 5 scenarios; 7 writer scenarios observed by readers at every pause point of the write; "
+                           "in 5 scenarios; 7 writer scenarios observed by readers at every pause point of the write; two "
+                           "threads committing the same object / two replicas of one id / two ids under the interleavings of "
+                           "their pause points (open of the temporary file, after it, os.replace; quick: every third "
+                           "schedule), a reader after every step; a retrieval (get, iteration) during which the client drops "
+                           "its last reference and the collector runs, at every yield point incl. every weak-cache access; "
                            "non-trivial = at least 3 steps; distinct by (op list, directory shape)")
 
 
@@ -1208,6 +1557,18 @@ def replay(path):
         obs, fail = run_threads(0, [tuple(o) for o in rp["pre"]], [tuple(p) for p in rp["progs"]], rp["schedule"],
                                 dshape=rp.get("dshape", 0))
         print("observation:", obs)
+        print("oracle:", fail)
+        return 1 if fail else 0
+    if "conc_scenario" in rp:
+        labels, fail = run_conc_writers(rp["conc_scenario"], rp["dshape"], [tuple(o) for o in rp["pre"]], tuple(rp["oids"]),
+                                        rp["schedule"])
+        print("pause points:", labels)
+        print("oracle:", fail)
+        return 1 if fail else 0
+    if "gc_scenario" in rp:
+        labels, cops, fail = run_gc_race(rp["gc_scenario"], rp["dshape"], [tuple(o) for o in rp["pre"]], rp["victim"],
+                                         rp["prog"], rp["drop_after_points"])
+        print("yield points:", labels, "cache accesses:", cops)
         print("oracle:", fail)
         return 1 if fail else 0
     if "writer_op" in rp:
